@@ -29,6 +29,21 @@ def run(res, tier, seed):
             if d.get('kind') != 'value':
                 continue
             q = d['query']
+            if q.startswith('PROP'):
+                hist, cur = [], []
+                for l in lines:
+                    if l.startswith('T default 0'):
+                        cur = []
+                    cur.append(l[:300])
+                    if l.startswith(q):
+                        hist = list(cur)
+                        break
+                res.violation('copy-does-not-solve-source-system:' + q.split()[1], {
+                    'what': 'evaluated on the implementation alone: after the copy / move the target solves a rhs, and the '
+                            'exact residual against the matrix the SOURCE was filled with is not small', 'verdict': d['impl'],
+                    'history': hist[-14:], 'seed': seed,
+                    'replay_cmd': 'VERIF_SEED=%d VERIF_TIER=%s build/harness/h_linalg objects' % (seed, tier)})
+                break
             # reconstruct the history up to the failing line as the replay
             hist, cur = [], []
             for l in lines:
